@@ -141,6 +141,17 @@ Fixpoint find_data (l : list (sample_data * (string * string))) (stok chan : str
         (if sd_key sd && String.eqb (sd_sample sd) stok && String.eqb ch chan then Some (sd, md) else acc)
   end.
 
+(* the loader's choice: sample["data"]["LIDAR_TOP"] if present, else sample["data"]["LIDAR_CONCAT"] *)
+Definition lidar_sd (ix : index) (s : sample) : option (sample_data * string) :=
+  match find_data (ix_sds ix) (s_token s) "LIDAR_TOP" None with
+  | Some x => Some x
+  | None => find_data (ix_sds ix) (s_token s) "LIDAR_CONCAT" None
+  end.
+
+(* specification vocabulary: the annotations of a sample, in the order of the sample_annotation table *)
+Definition annotations_of (d : dataset) (s : sample) : list annotation :=
+  filter (fun a => String.eqb (a_sample a) (s_token s)) (anns d).
+
 (* sample['anns'] resolved: the sample's annotations in the order of the sample_annotation table *)
 Definition sample_anns (ix : index) (stok : string) : list (annotation * string) :=
   filter (fun an => String.eqb (a_sample (fst an)) stok) (ix_anns ix).
@@ -186,6 +197,8 @@ Definition contains (pat s : string) : bool :=
   match String.index 0 pat s with Some _ => true | None => false end.
 
 Definition ego2map_of (ego : ego_pose) : rigid := mkRigid (e_rot ego) (e_trans ego) "BASE_LINK" "MAP".
+Definition sensor2ego_of (cs : calibrated_sensor) (src : string) : rigid :=
+  mkRigid (cs_rot cs) (cs_trans cs) src "BASE_LINK".
 
 Definition sensor_transforms (d : dataset) (e2m : rigid) (cs : calibrated_sensor) : res (list rigid) :=
   sn <- get_sensor d (cs_sensor cs) ;;
@@ -193,7 +206,7 @@ Definition sensor_transforms (d : dataset) (e2m : rigid) (cs : calibrated_sensor
   | Member k =>
       if contains "CAM_TRAFFIC_LIGHT" k then Err Unmodelled
       else
-        let s2e := mkRigid (cs_rot cs) (cs_trans cs) k "BASE_LINK" in
+        let s2e := sensor2ego_of cs k in
         match dot e2m s2e with
         | DotOk s2m => Ok [s2e; s2m]
         | DotValueError => Err ValueError
@@ -321,10 +334,7 @@ Definition make_object (d : dataset) (tk : task) (fid : frame_id) (merge : bool)
    the order matters only for which exception is seen first *)
 Definition sample_to_frame (d : dataset) (ix : index) (tk : task) (fid : frame_id) (merge : bool)
                            (n : nat) (s : sample) : res frame :=
-  match (match find_data (ix_sds ix) (s_token s) "LIDAR_TOP" None with
-         | Some x => Some x
-         | None => find_data (ix_sds ix) (s_token s) "LIDAR_CONCAT" None
-         end) with
+  match lidar_sd ix s with
   | None => Err ValueError                               (* "lidar data isn't found" *)
   | Some (sd, modality) =>
       let sas := sample_anns ix (s_token s) in
@@ -429,6 +439,9 @@ Definition identity_calibration (cs : calibrated_sensor) : Prop :=
 (* ------------------------------------------------------------------------------------------ *)
 (* the observation made on the implementation, and the comparison (used by the correspondence) *)
 (* ------------------------------------------------------------------------------------------ *)
+(* m / 2^e: how the harness writes a binary64 value that is not a small dyadic *)
+Definition fl (m : Z) (e : N) : Q := Qmake m (Pos.shiftl 1 e).
+
 Record obs_past := mkOPast { op_pos : list Q; op_ori : list Q; op_size : list Q }.
 Record obs_object := mkOObj {
   oo_uuid : string; oo_label : string; oo_name : string; oo_attrs : list string; oo_size : list Q;
